@@ -22,9 +22,9 @@ from harness import common
 from harness import c02_impl as I
 
 GEN_MODULES = ['layout', 'llh']
-MODEL_TARGETS = ['model/M_Layout.vo', 'model/M_Llh.vo', 'model/M_LlhGrad.vo', 'model/M_LlhE2E.vo']
+MODEL_TARGETS = ['model/M_Layout.vo', 'model/M_Llh.vo', 'model/M_LlhGrad.vo', 'model/M_LlhE2E.vo', 'model/M_LayoutExt.vo']
 PROOF_TARGETS = ['proofs/P_Layout.vo', 'proofs/P_LayoutDeriv.vo', 'proofs/P_LlhDeriv.vo', 'proofs/P_WeightsDeriv.vo',
-                 'proofs/P_LlhGrad.vo', 'proofs/P_LlhStack.vo', 'proofs/P_LlhPipeGrad.vo', 'proofs/P_LlhE2E.vo']
+                 'proofs/P_LlhGrad.vo', 'proofs/P_LlhStack.vo', 'proofs/P_LlhPipeGrad.vo', 'proofs/P_LlhE2E.vo', 'proofs/P_LayoutExt.vo']
 LEVEL = 'proof'
 RULE = ('layouts: ns + up to 3 further global parameters x {fixed,floating} x declaration orders x mappings '
         '(shared / per-source alias / subset of sources / unused local name) over 1..3 sources in 1..2 hypothesis '
@@ -815,6 +815,67 @@ def run_float(ctx, jobs):
                          if kind == 'pipe' else '(ratio, gradient) of one row of SigOverBkgPDFRatio')
 
 
+# ------------------------------------------------------------------ extension stream:
+# TrialDataManager.get_values_mask_for_source_mask (real method on the real TrialDataManager of a world)
+# against M_LayoutExt.values_mask_res, exact; predicate = brute force over the (source, event) table
+VM_IMPORTS = ('From Coq Require Import ZArith List. Import ListNotations. Open Scope Z_scope.\n'
+              'From Sky Require Import Result PyList M_Layout M_LayoutExt.\n')
+
+
+def vm_case_run(ctx, W, j, mask):
+    """-> (canonical impl result, model expression)"""
+    tdm = W.tdms[j]
+    src = [int(k) for k in tdm.src_evt_idxs[0]]
+    nsrc = int(tdm.n_sources)
+    try:
+        r = tdm.get_values_mask_for_source_mask(np.array(mask, dtype=bool))
+        impl = ['Ok', [bool(x) for x in r]]
+        want = [0 <= k < len(mask) and bool(mask[k]) for k in src]
+        if impl[1] != want:
+            ctx.violation('TrialDataManager.get_values_mask_for_source_mask', 'wrong-values-mask',
+                          'a value is selected although its source is not (or vice versa)',
+                          case={'vm': {'src': src, 'n_sources': nsrc, 'mask': [bool(b) for b in mask]}},
+                          impl=impl[1], model=want, predicate='values_mask[v] == src_mask[src_idxs[v]]')
+    except Exception as ex:      # noqa: BLE001
+        impl = ['Err', exc_kind(ex)]
+        if len(mask) == nsrc:
+            ctx.violation('TrialDataManager.get_values_mask_for_source_mask', 'raises-' + exc_kind(ex),
+                          'raises for a mask of the right length',
+                          case={'vm': {'src': src, 'n_sources': nsrc, 'mask': [bool(b) for b in mask]}}, impl=impl)
+    expr = (f"values_mask_res {nsrc}%nat [{'; '.join('true' if b else 'false' for b in mask)}] {common.zlist(src)}")
+    return impl, expr, {'vm': {'src': src, 'n_sources': nsrc, 'mask': [bool(b) for b in mask], 'dataset': j}}
+
+
+def vm_compare(ctx, items, tag):
+    if not items or not ctx.model_ok:
+        return
+    try:
+        vals = common.coq_eval('c02vm' + tag, VM_IMPORTS, [e for (_i, e, _c) in items])
+    except RuntimeError as ex:
+        ctx.broken.append({'kind': 'model-eval', 'error': str(ex)[:1000]})
+        return
+    for (impl, _e, c), v in zip(items, vals):
+        ctx.corr_cases += 1
+        ctx.count('values_mask_stream:' + impl[0])
+        m = ['Ok', list(v[1])] if isinstance(v, tuple) and v[0] == 'Ok' else (['Err', v[1]] if isinstance(v, tuple) else ['?', repr(v)])
+        if m != impl:
+            ctx.disagree('trialdata.values_mask', c, impl, m)
+
+
+def vm_stream(ctx, rng, W, items, n_masks):
+    for j in range(len(W.tdms)):
+        nsrc = int(W.tdms[j].n_sources)
+        masks = [[True] * nsrc, [False] * nsrc]
+        for _ in range(n_masks):
+            masks.append([rng.random() < 0.5 for _ in range(nsrc)])
+        # malformed: wrong length (numpy raises IndexError for a boolean index of the wrong size)
+        masks.append([True] * (nsrc + 1))
+        if nsrc > 1:
+            masks.append([True] * (nsrc - 1))
+        for m in masks:
+            items.append(vm_case_run(ctx, W, j, m))
+
+
 # ------------------------------------------------------------------ driver
 def corpus_cases(ctx, rng):
     """regression corpus: the layouts of the two repaired defects (known_findings `fixed`):
@@ -888,7 +949,7 @@ def enumerated_specs():
 
 
 def process(ctx, cases, tag):
-    exprs, impls, jobs = [], [], []
+    exprs, impls, jobs, vm_items = [], [], [], []
     for ci, c in enumerate(cases):
         ctx.case({'decls': c['decls'], 'groups': c['groups'], 'vec': c['vec'], 'pairs': c['datasets'][0]['pairs']},
                  nontrivial=(len(c['vec']) >= 2 or c['n_src'] >= 2))
@@ -904,6 +965,8 @@ def process(ctx, cases, tag):
             n = fd_predicates(ctx, c, W, lay)
             lay['glen'] = n
             collect_float(ctx, c, W, jobs)
+            if ci % 4 == 0 or c.get('probe'):
+                vm_stream(ctx, ctx.rng, W, vm_items, 2)
             if ctx.thorough() or c.get('probe') or ci % 3 == 0:
                 history_probes(ctx, c, W)
         impls.append(lay)
@@ -912,6 +975,7 @@ def process(ctx, cases, tag):
         ctx.notes.append('model did not build: implementation-only predicates were evaluated')
         return
     run_float(ctx, jobs)
+    vm_compare(ctx, vm_items, tag)
     try:
         vals = common.coq_eval('c02' + tag, IMPORTS, exprs)
     except RuntimeError as ex:
@@ -963,6 +1027,21 @@ def run(ctx):
 
 def replay(ctx, rp):
     c = rp.get('case')
+    if c and 'vm' in c:
+        # values-mask stream: rebuild a minimal trial data manager holding exactly that (source, event) table
+        vm = c['vm']
+        n_src = max(int(vm['n_sources']), 1)
+        pairs = [(int(k), i) for i, k in enumerate(vm['src'])]
+        case = {'n_src': n_src, 'decs': [0.1] * n_src, 'weights': [1.0] * n_src, 'groups': [(n_src, None)], 'n_ds': 1,
+                'decls': [{'name': 0, 'fixed': False, 'val': 1.0, 'names': [1] * n_src}],
+                'datasets': [{'n_raw': max(len(pairs), 1), 'N': len(pairs) + 20, 'keep': list(range(max(len(pairs), 1))),
+                              'pairs': pairs, 'bkg': [1.0] * max(len(pairs), 1), 'sig': [1.0] * len(pairs), 'eratios': []}],
+                'vec': [1.0], 'regime': 'stable', 'on_grid': False, 'needed': []}
+        W = I.make_world(case)
+        items = [vm_case_run(ctx, W, 0, vm['mask'])]
+        ctx.case(vm)
+        vm_compare(ctx, items, 'r')
+        return
     if not c or 'decls' not in c:
         ctx.notes.append('replay file has no concrete input (broken obligation): re-running the full check')
         return run(ctx)
